@@ -60,3 +60,31 @@ def selftest(chk, rd, fn, done, rejected_ids, corrupt, want=8):
     if len(rejects) < len(picked):
         raise tlc.MachineryError(f"binding self-test failed for {fn}: {len(rejects)}/{len(picked)} corrupted cases rejected")
     chk.part(f"selftest:{fn}", corrupted=len(picked), rejected=len(rejects), passed=True)
+
+
+def replay_case(chk, path):
+    """--replay: call the helper again on the recorded input and let TLC validate the new output."""
+    import importlib
+
+    d = json.load(open(path))
+    case = {k: v for k, v in d["case"].items() if k in _FIELDS or k in ("fn",)}
+    case["id"] = 1
+    fn = case["fn"]
+    rd = tlc.new_rundir("replay")
+    try:
+        done = [getattr(importlib.import_module("harness.impl_helpers"), fn)(case)]
+        slim = [{k: v for k, v in c.items() if k in _FIELDS or k in ("id", "fn", "out")} for c in done]
+        rejects, results = cases.validate("Trace_Plan", slim, rd, "replay", shards=1)
+        for r in results:
+            chk.add_tlc(r, "validate:replay")
+        chk.cov["evaluations"] += 1
+        chk.cov["traces_validated_against_impl"] += 1
+        chk.cov["rule"] = "replay of one recorded helper call"
+        chk.sample(done[0])
+        for _cid, clause in rejects:
+            chk.violation(done[0], f"{fn}: {clause}")
+        if fn == "normalize_chunks" and not done[0].get("forms_agree", True):
+            chk.violation(done[0], "normalize_chunks: tuple/dict/scalar forms of the same specification disagree")
+    finally:
+        tlc.cleanup(rd)
+    return chk.finish()
